@@ -75,6 +75,49 @@ Definition ev_name (o : obs) (th : tid) (e : event) : option name :=
 Definition code_of_windows (l : list bool) : nat :=
   fold_left (fun acc (b : bool) => 2 * acc + (if b then 1 else 0)) l 0.
 
+(* ---- the duplicate-instance window F25, narrowed to what the finding says: CONCURRENT requests for one name.
+   w_dup is raised by the observer whenever a second instance of a name is created while an earlier one has not
+   ended, and when two stop executions overlap on one instance.  The second source is concurrency by itself; the
+   first one explains a violation only when two API calls aimed at the name (a shutdown aims at every name) were in
+   flight at the same time, or one was in flight while Run() was still spawning.  A single sequential request that
+   leaves two unfinished instances of a name is a violation, not the known finding. *)
+Definition op_aims (op : apiop) (n : name) : bool :=
+  match op with
+  | OpStart k | OpStop k | OpRestart k => N.eqb k n
+  | OpShutdown => true
+  | OpRun => false
+  end.
+Fixpoint api_overlap (n : name) (inflight : list tid) (spawning : bool) (evs : list (tid * event)) : bool :=
+  match evs with
+  | [] => false
+  | (th, e) :: r =>
+      match e with
+      | EApiBegin OpRun => negb (match inflight with [] => true | _ => false end) || api_overlap n inflight true r
+      | EApiBegin op =>
+          if op_aims op n then negb (match inflight with [] => true | _ => false end) || spawning || api_overlap n (th :: inflight) spawning r
+          else api_overlap n inflight spawning r
+      | EApiReturn _ => api_overlap n (filter (fun t => negb (N.eqb t th)) inflight) spawning r
+      | ERunSpawned => api_overlap n inflight false r
+      | _ => api_overlap n inflight spawning r
+      end
+  end.
+Fixpoint stop_overlap (cs : amap pconf) (o : obs) (evs : list (tid * event)) : bool :=
+  match evs with
+  | [] => false
+  | e :: r =>
+      (match snd e with
+       | EStopEnter i _ => stopping o i || existsb (fun p => N.eqb (snd p) i) (o_instop o)
+       | _ => false
+       end) || stop_overlap cs (obs_step cs o e) r
+  end.
+(* windows_of with the dup bit narrowed; [sub] = the sub-history the window flags were computed from, [full] = the whole prefix *)
+Definition windows_narrow (cs : amap pconf) (n : option name) (o : obs) (sub full : list (tid * event)) : list bool :=
+  let dup := match n with
+             | Some k => w_dup o && (stop_overlap cs (obs0 cs) sub || api_overlap k [] false full)
+             | None => w_dup o
+             end in
+  [w_zombie o; w_sdlag o; w_commit o; w_late o; w_sdspawn o; dup; w_stale o].
+
 (* runs the full observer; [kept] accumulates (in reverse) the events seen so far together with their name *)
 Fixpoint mon_run_wn (cs : amap pconf) (m : obs -> tid * event -> bool) (o : obs)
          (kept : list (option name * (tid * event))) (evs : list (tid * event)) : option nat :=
@@ -89,7 +132,8 @@ Fixpoint mon_run_wn (cs : amap pconf) (m : obs -> tid * event -> bool) (o : obs)
                    | None => kept
                    end in
         (* the violating event itself may be the one that reveals the window (e.g. the late Terminating write) *)
-        Some (code_of_windows (windows_of (obs_step cs (fold_left (obs_step cs) (map snd (rev sub)) (obs0 cs)) e)))
+        let subevs := map snd (rev sub) ++ [e] in
+        Some (code_of_windows (windows_narrow cs nm (fold_left (obs_step cs) subevs (obs0 cs)) subevs (map snd (rev kept) ++ [e])))
   end.
 
 Definition badwn_mon (m : amap pconf -> obs -> tid * event -> bool) (ts : list trace) : list nat :=
